@@ -829,3 +829,36 @@ Lemma worig_fails_oracle :
   c12w_ok [(1, 0)] wex_reqs_bad
     (wrun_case true wex_env [C12WEx.p_a] [C12WEx.p_a] (winit_sess C12WEx.p_a) wex_reqs_bad) = true.
 Proof. vm_compute. split; reflexivity. Qed.
+
+(* ---------------------------------------------------------------- interleaved channels
+   the channel of a track is changed only by a SETUP that was let through by the status table,
+   i.e. before PLAY: while playing the set of tracks that reach the client is fixed *)
+Lemma wchannels_only_by_setup : forall e s rq s' rs fs,
+  wstep e s rq = (s', rs, fs) ->
+  w_vch s' <> w_vch s \/ w_ach s' <> w_ach s ->
+  exists q, rq_cmd rq = CWrap q /\ wq_meth q = WmSetup /\ w_status s <> WPlaying /\
+            w_inited s = true /\ w_closed s = false.
+Proof.
+  intros e s rq s' rs fs Hs Hne. unfold wstep, wstep_gen in Hs.
+  destruct (rq_cmd rq) eqn:Hcmd; destruct (w_closed s) eqn:Hc; destruct (w_inited s) eqn:Hi;
+    cbn [negb andb] in Hs;
+    try (repeat break_hyp; inv_pairs; cbn in Hne; destruct Hne as [N | N]; exfalso; apply N; reflexivity).
+  exists q. split; [reflexivity|].
+  destruct (wrtsp_step true e s q) as [[s1 c] fs1] eqn:Hr.
+  assert (Hne1 : w_vch s1 <> w_vch s \/ w_ach s1 <> w_ach s).
+  { destruct (is_wteardown (wq_meth q)); inv_pairs; exact Hne. }
+  clear Hs Hne. unfold wrtsp_step, wdo_play, wdo_describe, wdo_setup, wready_of, wset_play, live in Hr.
+  destruct (wq_meth q) eqn:Hm; destruct (w_status s) eqn:Hst; cbn [wlegal_go negb] in Hr;
+    repeat break_hyp; inv_pairs; cbn in Hne1;
+    try (destruct Hne1 as [N | N]; exfalso; apply N; reflexivity);
+    repeat split; auto; discriminate.
+Qed.
+
+(* no frame for a session whose tracks were never set up with a usable channel *)
+Lemma wmedia_needs_track : forall ext s,
+  wmedia_of ext s = true -> wflows s = true /\ (chan_ok (w_vch s) = true \/ chan_ok (w_ach s) = true).
+Proof.
+  intros ext s H. unfold wmedia_of, wtracks in H.
+  apply andb_true_iff in H. destruct H as [H _]. apply andb_true_iff in H. destruct H as [Hf Ht].
+  split; [assumption | apply orb_true_iff; assumption].
+Qed.
